@@ -80,18 +80,18 @@ func c33OddRecords13() *explore.Scenario {
 	}
 }
 
-var c33RenegAnswers = []string{"nothing", "replayed-first-flight", "server-hello-selects-tls13", "server-hello-selects-tls13-suite-and-share", "hello-retry-request", "second-hello-request", "server-hello-tls11", "finished", "new-session-ticket", "certificate-first", "alert-no-renegotiation", "application-data"}
+var c33RenegAnswers = []string{"nothing", "replayed-first-flight", "server-hello-selects-tls13", "server-hello-selects-tls13-suite-and-share", "hello-retry-request", "second-hello-request", "server-hello-tls11", "finished", "new-session-ticket", "certificate-first", "alert-no-renegotiation", "application-data", "full-flight-with-correct-renegotiation-info"}
 
 func c33Renegotiation() *explore.Scenario {
 	var clients []gridClient
 	for _, n := range AllIDs() {
 		switch n.Name {
-		case "HelloGolang", "HelloChrome_Auto", "HelloChrome_58", "HelloFirefox_120", "HelloFirefox_55", "HelloIOS_14", "HelloSafari_16_0", "HelloEdge_85", "Hello360_11_0", "HelloQQ_11_1", "HelloRandomizedALPN", "HelloRandomizedNoALPN":
+		case "HelloGolang", "HelloChrome_Auto", "HelloChrome_58", "HelloFirefox_120", "HelloFirefox_55", "HelloIOS_14", "HelloSafari_16_0", "HelloEdge_85", "Hello360_11_0", "HelloQQ_11_1", "HelloRandomizedALPN", "HelloRandomizedNoALPN", "HelloChrome_100_PSK", "HelloChrome_112_PSK_Shuf":
 			id := n.ID
 			if isRandomized(id) {
 				id = seededRandomized(id.Client, 1)
 			}
-			clients = append(clients, gridClient{Name: n.Name, ID: id})
+			clients = append(clients, gridClient{Name: n.Name, ID: id, PSK: !isGolang(id) && !isRandomized(id) && specHasPSK(id)})
 		}
 	}
 	for _, name := range []string{"tls12-only", "tls12-no-ems"} {
@@ -108,9 +108,49 @@ func c33Renegotiation() *explore.Scenario {
 			reneg := x.Choose("renegotiation", 4) // 0 as the spec leaves it; 1 Never; 2 OnceAsClient; 3 FreelyAsClient
 			answer := x.Choose("answer", len(c33RenegAnswers))
 			rounds := 1 + x.Choose("rounds", 2) // HelloRequest (+answer) sent once or twice
-			what := fmt.Sprintf("%s at %04x, Config.Renegotiation=%s, %d x (HelloRequest + %s)", g.Name, vers, []string{"unset", "Never", "OnceAsClient", "FreelyAsClient"}[reneg], rounds, c33RenegAnswers[answer])
+			// what the client brought to this connection: 0 nothing; 1 a TLS 1.2 session from an earlier
+			// connection in its cache (this handshake resumes it); 2 a TLS 1.3 session in its cache, offered
+			// as a PSK to a server that now negotiates TLS 1.2; 3 a session injected with SetSessionState,
+			// forged from ticket and master secret without certificates (as examples/old does)
+			state := 0
+			if vers == tls.VersionTLS12 {
+				state = x.Choose("client-state", 4)
+			}
+			what := fmt.Sprintf("%s at %04x, Config.Renegotiation=%s, %d x (HelloRequest + %s), client-state=%s", g.Name, vers, []string{"unset", "Never", "OnceAsClient", "FreelyAsClient"}[reneg], rounds, c33RenegAnswers[answer],
+				[]string{"fresh", "resumed-tls12-session", "tls13-psk-offered-to-a-tls12-server", "forged-session-without-certificates"}[state])
 			ccfg := g.config("example.com")
 			ccfg.MinVersion = tls.VersionTLS10
+			var forged *tls.ClientSessionState
+			var injectErr error
+			if state != 0 {
+				ccfg.ClientSessionCache = tls.NewLRUClientSessionCache(4)
+				ccfg.OmitEmptyPsk = true
+				wcfg := peer.ServerConfig()
+				wcfg.MinVersion = tls.VersionTLS10
+				wcfg.MaxVersion = vers
+				if state == 2 {
+					wcfg.MaxVersion = tls.VersionTLS13
+				}
+				w := peer.Run(ccfg, g.ID, wcfg, peer.Opts{Echo: true, Prepare: g.prepare()})
+				if !(w.OK() && w.EchoOK) {
+					r.Obs = "warm-connection-failed"
+					return
+				}
+				css, ok := ccfg.ClientSessionCache.Get("example.com")
+				if !ok || css == nil {
+					r.Obs = "no-session-cached"
+					return
+				}
+				if state == 2 && css.Vers() != tls.VersionTLS13 {
+					r.Obs = "no-tls13-session-cached"
+					return
+				}
+				if state == 3 {
+					forged = tls.MakeClientSessionState(css.SessionTicket(), css.Vers(), css.CipherSuite(), css.MasterSecret(), nil, nil)
+					forged.SetEMS(css.EMS())
+					ccfg.ClientSessionCache = tls.NewLRUClientSessionCache(4) // sessions stay enabled, nothing cached
+				}
+			}
 			switch reneg {
 			case 1:
 				ccfg.Renegotiation = tls.RenegotiateNever
@@ -129,12 +169,19 @@ func c33Renegotiation() *explore.Scenario {
 				return d
 			}
 			var cleanup func()
+			var theClient *tls.UConn
 			prep := g.prepare()
 			hs := peer.Run(ccfg, g.ID, scfg, peer.Opts{KeepOpen: true,
 				Prepare: func(u *tls.UConn) error {
 					if prep != nil {
 						if err := prep(u); err != nil {
 							return err
+						}
+					}
+					if forged != nil {
+						if err := u.SetSessionState(forged); err != nil {
+							injectErr = err
+							return nil // this spec takes no injected session: an ordinary connection
 						}
 					}
 					if reneg != 0 { // a spec's renegotiation_info extension sets the Config field when applied: apply first, then override
@@ -152,7 +199,7 @@ func c33Renegotiation() *explore.Scenario {
 					}
 					return nil
 				},
-				OnConns: func(u *tls.UConn, s *tls.Conn) { cleanup = installHooks(s, hk) },
+				OnConns: func(u *tls.UConn, s *tls.Conn) { theClient = u; cleanup = installHooks(s, hk) },
 				ServerAfter: func(s *tls.Conn) error {
 					var sh []byte
 					for _, m := range flightMsgs {
@@ -211,6 +258,31 @@ func c33Renegotiation() *explore.Scenario {
 									out = m
 								}
 							}
+						case "full-flight-with-correct-renegotiation-info":
+							// a well-behaved renegotiating server: ServerHello with a fresh session id and
+							// renegotiation_info = client verify_data || server verify_data, then its certificate
+							if sp, ok := parseServerHello(sh); ok {
+								// (read on the client's side: a server that resumed a session does not keep
+								// the client's verify_data)
+								cv, sv := tls.VerifFinishedVerifyData(theClient.Conn)
+								body := append(append([]byte{byte(len(cv) + len(sv))}, cv...), sv...)
+								var exts []shExt
+								for _, e := range sp.exts {
+									if e.typ != 0xff01 && e.typ != 35 {
+										exts = append(exts, e)
+									}
+								}
+								sp.exts = append(exts, shExt{0xff01, body})
+								sp.setSessionID(rep(0x5d, 32))
+								out = sp.build()
+								var list []byte
+								for _, der := range scfg.Certificates[0].Certificate {
+									list = append(list, byte(len(der)>>16), byte(len(der)>>8), byte(len(der)))
+									list = append(list, der...)
+								}
+								out = append(out, hsMsg(11, append([]byte{byte(len(list) >> 16), byte(len(list) >> 8), byte(len(list))}, list...))...)
+								out = append(out, hsMsg(14, nil)...) // ServerHelloDone
+							}
 						case "alert-no-renegotiation":
 							tls.VerifWriteRecord(s, 21, []byte{1, 100})
 						case "application-data":
@@ -243,6 +315,12 @@ func c33Renegotiation() *explore.Scenario {
 			}
 			r.Nontrivial = true
 			r.Class = what
+			if injectErr != nil {
+				r.Count("forged_session_refused:"+errClass(injectErr), 1)
+			}
+			if state != 0 && hs.U.ConnectionState().DidResume {
+				r.Count(fmt.Sprintf("client_state_%d_resumed", state), 1)
+			}
 			writesBefore := hs.CE.WriteCount()
 			var obs []string
 			buf := make([]byte, 4096)
@@ -270,6 +348,12 @@ func c33Renegotiation() *explore.Scenario {
 				r.Count("renegotiation_hellos_sent", 1)
 			}
 			r.Obs = fmt.Sprint(obs)
+			if c33RenegAnswers[answer] == "full-flight-with-correct-renegotiation-info" {
+				r.Obs = fmt.Sprintf("full-flight|state=%d|%v", state, obs)
+				if state == 3 && rounds == 1 {
+					r.Sample = map[string]any{"case": what, "reads": obs, "client_writes_after": hs.CE.WriteCount() - writesBefore}
+				}
+			}
 			if x.Points[0].Pick == 1 && vers == tls.VersionTLS12 && rounds == 1 {
 				r.Sample = map[string]any{"case": what, "reads": obs}
 			}
